@@ -276,6 +276,42 @@ func runC02(c *core.Ctx) {
 		}
 		c02Emph(c, pool, specs[i%2], sb.String())
 	}
+	// part 5: many link reference definitions with a duplicate - the first definition wins however many there are
+	// (the count at every boundary size; the duplicate pair at the start, in the middle and at the end)
+	kd := 0
+	for _, n := range wl.BoundarySizes {
+		if n < 2 || n > 1100 {
+			continue
+		}
+		for _, pq := range [][2]int{{0, 1}, {0, n - 1}, {n / 2, n - 1}, {n - 2, n - 1}, {n / 3, n/3 + 1}} {
+			kd++
+			if !c.Mine(kd) || pq[0] >= pq[1] {
+				continue
+			}
+			var b strings.Builder
+			for i := 0; i < n; i++ {
+				lab := fmt.Sprintf("l%d", i)
+				if i == pq[1] {
+					// the later duplicate of label pq[0], in another case and with another target
+					fmt.Fprintf(&b, "[L%d]: /dup 'dup'\n", pq[0])
+					continue
+				}
+				fmt.Fprintf(&b, "[%s]: /u%d\n", lab, i)
+			}
+			last := n - 1
+			if last == pq[1] {
+				last = n - 2
+			}
+			fmt.Fprintf(&b, "\n[l%d] [x][L%d] [l%d][] [l0]\n", pq[0], pq[0], last)
+			lastHref := fmt.Sprintf("/u%d", last)
+			if last == pq[0] {
+				lastHref = fmt.Sprintf("/u%d", pq[0])
+			}
+			want := fmt.Sprintf("<p><a href=\"/u%d\">l%d</a> <a href=\"/u%d\">x</a> <a href=\"%s\">l%d</a> <a href=\"/u0\">l0</a></p>\n", pq[0], pq[0], pq[0], lastHref, last)
+			c02Check(c, pool, specs[kd%2], &c02Case{md: []byte(b.String()), want: want, kind: "first-definition-wins"}, st)
+			c.Count("first_definition_wins_documents", 1)
+		}
+	}
 	// part 4: the inline reference model (code spans, links, images, autolinks, raw HTML, entities, escapes, line breaks)
 	runC02Inline(c, pool, specs)
 	// part 1: generated documents
